@@ -164,8 +164,8 @@ static ABT_unit x_create_unit(ABT_pool pool, ABT_thread th)
     S[s].queued = 0;
     S[s].th = th;
     int uid = S[s].uid;
-    ul();
     EV("\"e\":\"UCreate\",\"p\":%d,\"u\":%d,\"t\":%d", p, uid, t);
+    ul();
     return (ABT_unit)S[s].addr;
 }
 static void x_free_unit(ABT_pool pool, ABT_unit unit)
@@ -176,12 +176,12 @@ static void x_free_unit(ABT_pool pool, ABT_unit unit)
     int uid = (s >= 0) ? S[s].uid : 0;
     int okpool = s >= 0 && S[s].pool == p;
     int queued = s >= 0 ? S[s].queued : 0;
+    EV("\"e\":\"UFree\",\"p\":%d,\"u\":%d,\"okpool\":%d,\"queued\":%d", p, uid ? uid : -1, okpool, queued);
     if (s >= 0 && uid) {
         S[s].uid = 0;
         g_freestack[g_nfree++] = s;
     }
     ul();
-    EV("\"e\":\"UFree\",\"p\":%d,\"u\":%d,\"okpool\":%d,\"queued\":%d", p, uid ? uid : -1, okpool, queued);
 }
 static void x_push(ABT_pool pool, ABT_unit unit)
 {
@@ -194,8 +194,8 @@ static void x_push(ABT_pool pool, ABT_unit unit)
         d->q[d->n++] = s;
         S[s].queued++;
     }
-    ul();
     EV("\"e\":\"UPush\",\"p\":%d,\"u\":%d", p, uid);
+    ul();
 }
 /* returns a slot or -1 */
 static int x_pop_slot(int p)
@@ -214,8 +214,8 @@ static int x_pop_slot(int p)
     d->n--;
     S[s].queued--;
     int uid = S[s].uid;
-    ul();
     EV("\"e\":\"UPop\",\"p\":%d,\"u\":%d", p, uid ? uid : -1);
+    ul();
     return s;
 }
 static size_t x_size(int p)
